@@ -636,7 +636,7 @@ def build():
         'parse_expression_list': expr_list_contract(),
         'parse_obj_inits': obj_inits_contract(),
         'with_tokenizer': A(ret='r', ensures=[('fresh_compiler_on_that_tokenizer', 'r.c_toks() == old(tokenizer).toks() && r.c_pos() == old(tokenizer).pos() && r.c_lbl() == 0')], props=('C10', 'C01')),
-    })
+    }, others='stub', skip=('compile',))
     from . import interp_vm as VM
     from .balance import slice_fn
     U.raw(MAP_LEMMAS % slice_fn(VM.SPECS, 'dict_state'), 'folded map = run-time map (lemmas)')
